@@ -30,7 +30,7 @@ WHY_NOT = {
                   "demonstration) before that fix; stored for reference only.",
 }
 verified = {}
-for line in open("/tmp/verify_seeds.tsv"):
+for line in (open("/tmp/verify_seeds.tsv") if os.path.exists("/tmp/verify_seeds.tsv") else []):
     f = line.rstrip("\n").split("\t")
     verified[(f[0], f[1])] = dict(patch_file=f[2], test_suite=f[3], demo_on_patched_tree=f[4], demo_on_clean_tree=f[5])
 
@@ -59,49 +59,54 @@ def needs_from_notes(notes, letter):
     return text.strip()[:2500]
 
 
-for pid in sorted(os.listdir(SRC)):
-    if not pid.startswith("C"):
-        continue
-    d = os.path.join(DST, pid)
-    os.makedirs(d, exist_ok=True)
-    notes = open(os.path.join(SRC, pid, "NOTES.md")).read() if os.path.exists(os.path.join(SRC, pid, "NOTES.md")) else ""
-    if notes:
-        open(os.path.join(d, "NOTES.md"), "w").write(notes)
-    changes = []
-    for L in "AB":
-        src_patch = os.path.join(SRC, pid, f"patch{L}.diff")
-        if (pid, L) == ("C19", "B"):
-            shutil.copy(os.path.join(SRC, pid, "patchB.diff"), os.path.join(d, "patchB_orig.diff"))
-            src_patch = os.path.join(SRC, pid, "patchB_rebased.diff")
-        if (pid, L) == ("C24", "B"):
-            shutil.copy(os.path.join(SRC, pid, "patchB_orig.diff"), os.path.join(d, "patchB_orig.diff"))
-        if not os.path.exists(src_patch):
+def main():
+    for pid in sorted(os.listdir(SRC)):
+        if not pid.startswith("C"):
             continue
-        shutil.copy(src_patch, os.path.join(d, f"patch{L}.diff"))
-        shutil.copy(os.path.join(SRC, pid, f"demo{L}.py"), os.path.join(d, f"demo{L}.py"))
-        files = re.findall(r"^\+\+\+ b/(\S+)", open(src_patch).read(), re.M)
-        v = verified.get((pid, L), {})
-        ok = v.get("test_suite", "").startswith("977 passed") and v.get("demo_on_patched_tree") == "mut_rc=1" and v.get("demo_on_clean_tree") == "clean_rc=0"
-        changes.append({
-            "patch": f"patch{L}.diff", "demonstration": f"demo{L}.py", "files": files,
-            "needs_to_manifest": needs_from_notes(notes, L) or "see NOTES.md",
-            "rebased": REBASED.get((pid, L)),
-            "what_i_ran": {
-                "where": f"scratch worktree `git -C /repo worktree add --detach /tmp/wt/{pid} HEAD` (the demonstrations hard-code that path), removed afterwards",
-                "commands": [f"git apply patch{L}.diff", "/venv/bin/python -m pytest -q -p no:cacheprovider -n 8", f"/venv/bin/python demo{L}.py  (patched tree)",
-                             "git checkout -- .", f"/venv/bin/python demo{L}.py  (clean tree)"],
-                "results": v,
-            },
-            "kept": bool(ok),
-            "why_not_kept": None if ok else WHY_NOT.get((pid, L), "does not satisfy the keeping criteria on the current HEAD; stored for reference only"),
-            "caught_by": CAUGHT.get(pid, {}).get(L, []),
-        })
-    prop = None
-    for line in open("/verif/properties.jsonl"):
-        p = json.loads(line)
-        if p["id"] == pid:
-            prop = p
-    json.dump({"property": pid, "title": prop["title"], "statement": prop["statement"],
-               "origin": "fresh sub-agent given only the property text and a scratch worktree of /repo; nothing from /verif",
-               "changes": changes}, open(os.path.join(d, "meta.json"), "w"), indent=1)
-    print(pid, [(c["patch"], c["kept"], len(c["needs_to_manifest"])) for c in changes])
+        d = os.path.join(DST, pid)
+        os.makedirs(d, exist_ok=True)
+        notes = open(os.path.join(SRC, pid, "NOTES.md")).read() if os.path.exists(os.path.join(SRC, pid, "NOTES.md")) else ""
+        if notes:
+            open(os.path.join(d, "NOTES.md"), "w").write(notes)
+        changes = []
+        for L in "AB":
+            src_patch = os.path.join(SRC, pid, f"patch{L}.diff")
+            if (pid, L) == ("C19", "B"):
+                shutil.copy(os.path.join(SRC, pid, "patchB.diff"), os.path.join(d, "patchB_orig.diff"))
+                src_patch = os.path.join(SRC, pid, "patchB_rebased.diff")
+            if (pid, L) == ("C24", "B"):
+                shutil.copy(os.path.join(SRC, pid, "patchB_orig.diff"), os.path.join(d, "patchB_orig.diff"))
+            if not os.path.exists(src_patch):
+                continue
+            shutil.copy(src_patch, os.path.join(d, f"patch{L}.diff"))
+            shutil.copy(os.path.join(SRC, pid, f"demo{L}.py"), os.path.join(d, f"demo{L}.py"))
+            files = re.findall(r"^\+\+\+ b/(\S+)", open(src_patch).read(), re.M)
+            v = verified.get((pid, L), {})
+            ok = v.get("test_suite", "").startswith("977 passed") and v.get("demo_on_patched_tree") == "mut_rc=1" and v.get("demo_on_clean_tree") == "clean_rc=0"
+            changes.append({
+                "patch": f"patch{L}.diff", "demonstration": f"demo{L}.py", "files": files,
+                "needs_to_manifest": needs_from_notes(notes, L) or "see NOTES.md",
+                "rebased": REBASED.get((pid, L)),
+                "what_i_ran": {
+                    "where": f"scratch worktree `git -C /repo worktree add --detach /tmp/wt/{pid} HEAD` (the demonstrations hard-code that path), removed afterwards",
+                    "commands": [f"git apply patch{L}.diff", "/venv/bin/python -m pytest -q -p no:cacheprovider -n 8", f"/venv/bin/python demo{L}.py  (patched tree)",
+                                 "git checkout -- .", f"/venv/bin/python demo{L}.py  (clean tree)"],
+                    "results": v,
+                },
+                "kept": bool(ok),
+                "why_not_kept": None if ok else WHY_NOT.get((pid, L), "does not satisfy the keeping criteria on the current HEAD; stored for reference only"),
+                "caught_by": CAUGHT.get(pid, {}).get(L, []),
+            })
+        prop = None
+        for line in open("/verif/properties.jsonl"):
+            p = json.loads(line)
+            if p["id"] == pid:
+                prop = p
+        json.dump({"property": pid, "title": prop["title"], "statement": prop["statement"],
+                   "origin": "fresh sub-agent given only the property text and a scratch worktree of /repo; nothing from /verif",
+                   "changes": changes}, open(os.path.join(d, "meta.json"), "w"), indent=1)
+        print(pid, [(c["patch"], c["kept"], len(c["needs_to_manifest"])) for c in changes])
+
+
+if __name__ == "__main__":
+    main()
